@@ -13,8 +13,11 @@ import (
 	"math/rand"
 	"os"
 	"path/filepath"
+	"runtime"
 	"sort"
 	"strings"
+	"sync/atomic"
+	"time"
 
 	"github.com/dadrus/heimdall/verifharness/trace"
 )
@@ -78,10 +81,42 @@ func New(opt Options, w *trace.Writer) (*Driver, error) {
 	return d, nil
 }
 
+// progress counts the inputs taken up; the watchdog ends the process when it stands still (an input
+// after which the code under test blocks for good: the id of the input is in the cursor file).
+var progress atomic.Int64 //nolint:gochecknoglobals
+
+const stallLimit = 90 * time.Second
+
+// Watchdog starts the stall watchdog of the driver process.
+func Watchdog() {
+	go func() {
+		last, since := progress.Load(), time.Now()
+
+		for {
+			time.Sleep(time.Second)
+
+			if now := progress.Load(); now != last {
+				last, since = now, time.Now()
+
+				continue
+			}
+
+			if last > 0 && time.Since(since) > stallLimit {
+				buf := make([]byte, 1<<20)
+				buf = buf[:runtime.Stack(buf, true)]
+				fmt.Fprintf(os.Stderr, "%s\nfatal error: verif watchdog: the code under test blocks, no progress for %s\n", buf, stallLimit)
+				os.Exit(3) //nolint:mnd
+			}
+		}
+	}()
+}
+
 func (d *Driver) want(id string) bool {
 	if d.opt.Except[id] || (d.opt.Only != nil && !d.opt.Only[id]) {
 		return false
 	}
+
+	progress.Add(1)
 
 	if d.opt.Cursor != "" {
 		_ = os.WriteFile(d.opt.Cursor, []byte(id), 0o600)
@@ -135,6 +170,8 @@ func b64(in input) string {
 }
 
 func (d *Driver) emit(e Event) {
+	progress.Add(1)
+
 	d.N++
 	d.w.Emit(e)
 }
